@@ -32,15 +32,17 @@ import (
 
 type monitor struct {
 	disk.DiskManager
-	userPages map[types.PageID]bool
-	logBytes  []byte
-	parsed    int
-	maxLSN    types.LSN
-	commits   map[types.TxnID]bool
-	lastLSN   map[types.TxnID]types.LSN
-	parser    *log_recovery.LogRecovery
-	active    bool
-	events    []pageEvt
+	userPages      map[types.PageID]bool
+	logBytes       []byte
+	parsed         int
+	maxLSN         types.LSN // greatest LSN on stable storage (its WriteLog has returned)
+	seenLSN        types.LSN // greatest LSN handed to WriteLog
+	pendingCommits []types.TxnID
+	commits        map[types.TxnID]bool
+	lastLSN        map[types.TxnID]types.LSN
+	parser         *log_recovery.LogRecovery
+	active         bool
+	events         []pageEvt
 }
 
 type pageEvt struct {
@@ -49,30 +51,44 @@ type pageEvt struct {
 }
 
 func (m *monitor) WriteLog(data []byte) error {
-	if m.active {
-		m.logBytes = append(m.logBytes, data...)
-		for {
-			var rec recovery.LogRecord
-			if !m.parser.DeserializeLogRecord(m.logBytes[m.parsed:], &rec) {
-				break
-			}
-			if rec.Lsn >= 0 {
-				vf.Assert(rec.Lsn > m.maxLSN, "log records reach the log file in increasing LSN order")
-				m.maxLSN = rec.Lsn
-				if prev, ok := m.lastLSN[rec.TxnID]; ok {
-					vf.Assert(rec.PrevLSN == prev, "each record names the previous record of its transaction")
-				}
-				m.lastLSN[rec.TxnID] = rec.Lsn
-			}
-			if rec.LogRecordType == recovery.COMMIT {
-				m.commits[rec.TxnID] = true
-			}
-			m.parsed += int(rec.Size)
-		}
-		vf.Assert(m.parsed == len(m.logBytes), "every log write ends on a record boundary (the file is a sequence of complete records)")
-		vf.Cover("c08.logwrite")
+	if !m.active {
+		return m.DiskManager.WriteLog(data)
 	}
-	return m.DiskManager.WriteLog(data)
+	m.logBytes = append(m.logBytes, data...)
+	stable := m.maxLSN
+	for {
+		var rec recovery.LogRecord
+		if !m.parser.DeserializeLogRecord(m.logBytes[m.parsed:], &rec) {
+			break
+		}
+		if rec.Lsn >= 0 {
+			vf.Assert(rec.Lsn > m.seenLSN, "log records reach the log file in increasing LSN order")
+			m.seenLSN = rec.Lsn
+			stable = rec.Lsn
+			if prev, ok := m.lastLSN[rec.TxnID]; ok {
+				vf.Assert(rec.PrevLSN == prev, "each record names the previous record of its transaction")
+			}
+			m.lastLSN[rec.TxnID] = rec.Lsn
+		}
+		if rec.LogRecordType == recovery.COMMIT {
+			m.pendingCommits = append(m.pendingCommits, rec.TxnID)
+		}
+		m.parsed += int(rec.Size)
+	}
+	vf.Assert(m.parsed == len(m.logBytes), "every log write ends on a record boundary (the file is a sequence of complete records)")
+	vf.Cover("c08.logwrite")
+	// the write takes a while: under the scheduler other goroutines may run before the bytes are stable
+	vf.Yield()
+	err := m.DiskManager.WriteLog(data)
+	// only now the records are on stable storage
+	if stable > m.maxLSN {
+		m.maxLSN = stable
+	}
+	for _, id := range m.pendingCommits {
+		m.commits[id] = true
+	}
+	m.pendingCommits = nil
+	return err
 }
 
 func (m *monitor) WritePage(id types.PageID, data []byte) error {
@@ -102,7 +118,7 @@ type world struct {
 
 func open(frames int) *world {
 	common.TempSuppressOnMemStorage = true
-	mon := &monitor{DiskManager: disk.NewDiskManagerImpl("vfc08.db"), userPages: map[types.PageID]bool{}, maxLSN: -1, commits: map[types.TxnID]bool{}, lastLSN: map[types.TxnID]types.LSN{}}
+	mon := &monitor{DiskManager: disk.NewDiskManagerImpl("vfc08.db"), userPages: map[types.PageID]bool{}, maxLSN: -1, seenLSN: -1, commits: map[types.TxnID]bool{}, lastLSN: map[types.TxnID]types.LSN{}}
 	var dm disk.DiskManager = mon
 	lm := recovery.NewLogManager(&dm)
 	lm.ActivateLogging()
@@ -298,3 +314,38 @@ func interleaved(k int) {
 func VF_C08_Interleaved_K4() { interleaved(4) }
 func VF_C08_Interleaved_K5() { interleaved(5) }
 func VF_C08_Interleaved_K6() { interleaved(6) }
+
+// Two threads at the storage boundary: a transaction has changed a page (record in the log buffer, page
+// dirty); one goroutine flushes the log (what a committing peer or an eviction does), another one flushes
+// the page (what the checkpoint or an eviction does). The log write "takes a while" (switch point inside the
+// monitor's WriteLog). Whatever the schedule, the page must not reach the db file before its record is stable.
+func concurrentFlush(pageOp int) {
+	w := open(8)
+	vf.Sched("c08.concurrentFlush")
+	vf.SchedPreempt(2)
+	t := w.tm.Begin(nil)
+	w.exec(sysx.Insert("t1", []string{"tag", "v", "s"}, []types.Value{types.NewInteger(1), types.NewInteger(vf.I32()), types.NewVarchar("small")}), t)
+	vf.Assert(t.GetState() != access.ABORTED, "statement of a lone transaction is not aborted")
+	w.refreshPages()
+	pid := w.tmd.Table().GetFirstPageID()
+	done := make(chan bool, 2)
+	go func() {
+		w.lm.Flush()
+		done <- true
+	}()
+	go func() {
+		if pageOp == 0 {
+			w.bpm.FlushPage(pid)
+		} else {
+			w.bpm.FlushAllDirtyPages()
+		}
+		done <- true
+	}()
+	<-done
+	<-done
+	vf.Cover("c08.concurrent")
+	w.tm.Commit(w.cat, t)
+}
+
+func VF_C08_ConcurrentFlushPage() { concurrentFlush(0) }
+func VF_C08_ConcurrentFlushAll()  { concurrentFlush(1) }
